@@ -11,6 +11,7 @@ import EupsModel.Lemmas.TableDeclOpts
 import EupsModel.Lemmas.TableGrammar
 import EupsModel.Lemmas.TableLegacyDenote
 import EupsModel.Lemmas.TableLegacyOldDenote
+import EupsModel.Lemmas.SetupType
 /-! C11 — table files mean what they say.  Property theorems only: the specification side is in
 `Spec/C11.lean`, the models in `Model/{Cond,CondPinned,TableParse}.lean`, the lemmas in `Lemmas/Cond*.lean`. -/
 namespace EupsModel.C11
@@ -670,5 +671,42 @@ theorem C11_declare_options_debugger_witness :
   refine ⟨by decide +kernel, fun env d => ?_, by decide +kernel, by decide +kernel, by decide +kernel⟩
   have : longChain.length > 15 := by decide
   simp [declOptsGoPinned, this]
+
+/-! ## the setup type: from the command line to `Table.actions` -/
+
+open EupsModel.SetupType in
+/-- **C11_setup_type_option.**  `setup --type "<words>"` (the option string reaches `Eups(setupType=…)` as it is):
+words separated by non-empty runs of blanks and commas, every word a valid setup type, name exactly those words, in
+order; `--exact` adds `exact` when it is not among them; `Eups.exact_version` says whether `exact` is among the
+types.  These are the types `Eups.setup` hands to `Table.actions(flavor, setupType)`, i.e. the `env.types` of
+`C11_cond` / `C11_table_text`: `TYPE == w` holds iff `w` is one of the words (or `exact` under `--exact`).
+A word that is not a valid setup type is refused (`EupsException`). -/
+theorem C11_setup_type_option (valid : List Str) (first : Str) (rest : List (Str × Str)) (exactOpt : Bool)
+    (hf : SetupType.wordOK first = true) (hr : ∀ p ∈ rest, SetupType.sepOK p.1 = true ∧ SetupType.wordOK p.2 = true) :
+    normTypes valid (setupArg (first ++ rest.flatMap fun p => p.1 ++ p.2)) exactOpt =
+      (let words := first :: rest.map (·.2)
+       let ts := if exactOpt && !words.contains sExact then words ++ [sExact] else words
+       if words.all (fun t => valid.contains t) then some (ts, ts.contains sExact) else none) := by
+  simp only [normTypes, setupArg, argTypes_words first rest hf hr]
+
+open EupsModel.SetupType in
+/-- **C11_dependencies_types.**  `Table.dependencies` reads the table for the same types when it follows exact
+versions, and for the types other than `exact` (order kept) when it does not. -/
+theorem C11_dependencies_types (ts : List Str) :
+    depTypes true ts = ts ∧ ∀ w, (depTypes false ts).contains w = (ts.contains w && w != sExact) :=
+  ⟨rfl, fun w => by simp only [depTypes, Bool.false_eq_true, if_false]; exact contains_filter_ne ts sExact w⟩
+
+open EupsModel.SetupType in
+example : normTypes [sExact, Str.ofString "build"] (setupArg (Str.ofString "build, exact")) false
+    = some ([Str.ofString "build", sExact], true) ∧
+    normTypes [sExact, Str.ofString "build"] (setupArg (Str.ofString "build")) true
+    = some ([Str.ofString "build", sExact], true) ∧
+    normTypes [sExact, Str.ofString "build"] (cmdArg (Str.ofString " build  exact ")) false
+    = some ([Str.ofString "build", sExact], true) ∧
+    normTypes [sExact, Str.ofString "build"] (setupArg (Str.ofString "build bogus")) false = none ∧
+    -- not claimed either way: a separator at an end of the option names the empty type, which is refused
+    normTypes [sExact, Str.ofString "build"] (setupArg (Str.ofString "build ")) false = none := by decide +kernel
+open EupsModel.SetupType in
+example : SetupType.wordOK (Str.ofString "build") = true ∧ SetupType.sepOK (Str.ofString ", ") = true := by decide
 
 end EupsModel.C11
